@@ -374,6 +374,9 @@ pub fn roundtrip<B: Backend>(rec: &mut Recorder, st: &mut Stats, cfg: &Cfg) {
 
 fn flips(blob: &[u8], thorough: bool, rng: &mut Prng, edges: &[usize]) -> Vec<(usize, u8)> {
     let mut v = Vec::new();
+    if ONLY_RELABEL.with(|c| *c.borrow()) {
+        return v;
+    }
     for i in 0..blob.len() {
         let near = edges.iter().any(|&e| i + 2 >= e && i < e + 2) || i < 2 || i + 2 >= blob.len();
         if thorough || near {
@@ -386,6 +389,8 @@ fn flips(blob: &[u8], thorough: bool, rng: &mut Prng, edges: &[usize]) -> Vec<(u
 }
 
 pub fn tamper<B: Backend>(rec: &mut Recorder, st: &mut Stats, cfg: &Cfg) {
+    let only_relabel = cfg.mode == "relabel";
+    ONLY_RELABEL.with(|c| *c.borrow_mut() = only_relabel);
     let mut rng = Prng::new(cfg.seed, &format!("c06-{}", B::NAME));
     let w = world::<B>(&mut rng, 3);
     let with = &w.locals[2];
@@ -403,7 +408,7 @@ pub fn tamper<B: Backend>(rec: &mut Recorder, st: &mut Stats, cfg: &Cfg) {
             q[i] ^= 1 << b;
             pie_unwrap::<B, Local>(rec, st, &q, with, json!({"cls":"bitflip","pos":i,"bit":b}));
         }
-        for n in 0..blob.len() {
+        for n in 0..(if only_relabel { 0 } else { blob.len() }) {
             pie_unwrap::<B, Local>(rec, st, &blob[..n], with, json!({"cls":"truncate","to":n}));
         }
         for k in 1..=3 {
@@ -424,7 +429,7 @@ pub fn tamper<B: Backend>(rec: &mut Recorder, st: &mut Stats, cfg: &Cfg) {
             q[i] ^= 1 << b;
             pie_unwrap::<B, Secret>(rec, st, &q, with, json!({"cls":"bitflip","pos":i,"bit":b}));
         }
-        for n in (0..blob.len()).step_by(step) {
+        for n in (0..(if only_relabel { 0 } else { blob.len() })).step_by(step) {
             pie_unwrap::<B, Secret>(rec, st, &blob[..n], with, json!({"cls":"truncate","to":n}));
         }
         pie_unwrap::<B, Secret>(rec, st, &blob, other_with, json!({"cls":"other-key"}));
@@ -453,7 +458,7 @@ pub fn tamper<B: Backend>(rec: &mut Recorder, st: &mut Stats, cfg: &Cfg) {
             q[i] ^= 1 << b;
             pw_unwrap::<B, Local>(rec, st, &q, pass, json!({"cls":"bitflip","pos":i,"bit":b}));
         }
-        for n in 0..blob.len() {
+        for n in 0..(if only_relabel { 0 } else { blob.len() }) {
             pw_unwrap::<B, Local>(rec, st, &blob[..n], pass, json!({"cls":"truncate","to":n}));
         }
         for k in 1..=3 {
@@ -495,7 +500,7 @@ pub fn tamper<B: Backend>(rec: &mut Recorder, st: &mut Stats, cfg: &Cfg) {
             q[i] ^= 1 << b;
             pke_unseal::<B>(rec, st, &q, &r0.secret, json!({"cls":"bitflip","pos":i,"bit":b}));
         }
-        for n in (0..blob.len()).step_by(step) {
+        for n in (0..(if only_relabel { 0 } else { blob.len() })).step_by(step) {
             pke_unseal::<B>(rec, st, &blob[..n], &r0.secret, json!({"cls":"truncate","to":n}));
         }
         for k in 1..=3 {
@@ -544,6 +549,7 @@ fn relabel_all(rec: &mut Recorder, st: &mut Stats, wkind: &str, kt: &str, blob: 
 }
 
 thread_local! {
+    static ONLY_RELABEL: std::cell::RefCell<bool> = const { std::cell::RefCell::new(false) };
     static CURRENT_VER: std::cell::RefCell<u32> = const { std::cell::RefCell::new(0) };
 }
 
@@ -611,7 +617,7 @@ pub fn run(rec: &mut Recorder, cfg: &Cfg) -> Stats {
         CURRENT_VER.with(|c| *c.borrow_mut() = B::VER);
         match cfg.mode.as_str() {
             "roundtrip" => roundtrip::<B>(rec, st, cfg),
-            "tamper" => tamper::<B>(rec, st, cfg),
+            "tamper" | "relabel" => tamper::<B>(rec, st, cfg),
             "faults" => faults::<B>(rec, st, cfg),
             m => panic!("unknown mode {m}"),
         }
